@@ -88,10 +88,12 @@ def _strategies():
             branches += [strat] + [strat.map(lambda x: x) for _ in range(weight - 1)]
         return st.one_of(*branches)
 
+    # attribute values: index into M.VALUES (constants, operators, containers, calls, names, attribute chains)
+    value = st.integers(0, len(M.VALUES) - 1)
     func = st.fixed_dictionaries({"k": st.just("func"), "name": small, "sig": small, "doc": st.integers(0, 2)}, optional={"exp": st.booleans()})
-    attr = st.fixed_dictionaries({"k": st.just("attr"), "name": small, "val": st.integers(0, 3)}, optional={"exp": st.booleans()})
+    attr = st.fixed_dictionaries({"k": st.just("attr"), "name": small, "val": value}, optional={"exp": st.booleans()})
     meth = st.fixed_dictionaries({"k": st.just("meth"), "name": small, "sig": small, "doc": st.integers(0, 1)})
-    cattr = st.fixed_dictionaries({"k": st.just("cattr"), "name": small, "val": st.integers(0, 3)})
+    cattr = st.fixed_dictionaries({"k": st.just("cattr"), "name": small, "val": value})
     ncls = st.fixed_dictionaries({"k": st.just("ncls"), "name": st.integers(0, 1), "body": st.lists(st.one_of(meth, cattr), min_size=1, max_size=3)})
     cmem = weighted((meth, 3), (cattr, 3), (ncls, 1))
     cls = st.fixed_dictionaries(
@@ -149,7 +151,13 @@ def _strategies():
     at = st.integers(0, 63)
     inc_where = st.sampled_from(["direct", "direct", "reexport", "reexport", "reexport", "inherit", "inherit", "inherit", "gray"])
     incompat = st.fixed_dictionaries(
-        {"op": st.sampled_from(["remove", "remove", "rekind", "rekind", "chvalue", "rmbase"]), "at": at, "where": inc_where, "arg": small}
+        {
+            "op": st.sampled_from(["remove", "remove", "rekind", "rekind", "chvalue", "chvalue", "rmbase"]),
+            "at": at,
+            "where": inc_where,
+            "arg": small,
+            "val": value,  # chvalue: the new value, drawn independently of the old one
+        }
     )
     dead = st.fixed_dictionaries(
         {
@@ -158,6 +166,7 @@ def _strategies():
             "where": st.just("dead"),
             "arg": small,
             "hidden": st.sampled_from([True, True, False]),  # prefer public-looking objects below an empty __all__
+            "val": value,
         }
     )
     compat = st.fixed_dictionaries(
@@ -299,6 +308,7 @@ def analyse(case: dict) -> dict:
                 "ent": r["ent"],
                 "loc": fr.label(r["ent"]),
                 "ekind": opkg.kind(r["ent"]),
+                "nature": r.get("nature"),
                 "kind": M.EXPECTED_KIND[r["op"]],
                 "paths": paths,
             }
@@ -319,6 +329,8 @@ def analyse(case: dict) -> dict:
             classes.append(f"edit-skipped:{r['op']}")
     for e in expectations:
         classes.append(f"expect:{e['op']}:{e['loc']}:{e['ekind']}")
+        if e.get("nature"):
+            classes.append(f"expect:chvalue-nature:{e['nature']}")
     if "cyclic" in pub_status:
         classes.append("pkg:public-cyclic-reexport")
     if "unresolvable" in pub_status:
